@@ -11,6 +11,30 @@ CHECKS = {
          "each compiled state graph (dumped through the VerifCompile hook) is compared for exact language equality with the reference automaton, which covers inputs of unbounded length for the structural part. "
          "Held means: no disagreement on the cases observed, outside the unclaimed zones.",
          "Trusted: the reference semantics of DESIGN.md 3.2/3.3 (own reader, Thompson automaton, memoised matcher); generators; token-level behaviour only up to the generated lengths.", "5/C01"),
+ "C02": ("runtime monitor with recording value types (every Set logged) judged by an admission oracle over the reference automaton; twin run with the built-in types",
+         "Exploration: for every accepted generated command line the values recorded inside the Action must be consumable, token for token and in order, by some derivation of the reference automaton (nothing invented, dropped, duplicated, moved; tokens after -- verbatim); for specs without -- the option part must equal the reader's occurrence list, and a twin run with built-in variable types must agree.",
+         "Trusted: admission search of DESIGN.md 3.4; recording types; unclaimed zones skipped and counted.", "5/C02"),
+ "C03": ("crash / CPU-budget watchdog around isolated worker processes; hostile spec, argv and environment-subset workload",
+         "Exploration with a liveness watchdog: every case (compile + parse under all 32 subsets of env-backed options) runs in an isolated worker with a journal; worker death, an undocumented panic, a position outside the string or more than 5 CPU-seconds for one case is a violation attributed to the journalled input. 'Never hangs' is restated as this bounded progress.",
+         "Trusted: getrusage CPU accounting, SetMaxStack, the journal surviving a process crash (page cache). Inputs bounded: spec <= 256 bytes, nesting <= 64, <= 5 options, argv <= 16 tokens.", "5/C03"),
+ "C08": ("bounded-exhaustive + random differential monitor of the real lexer/parser (via Run and the VerifTokenize hook) against a reference recogniser; token-extent monitor",
+         "Exploration, exhaustive over two finite families (all strings over 19 character classes up to length 4/6, all sequences of up to 4/6 of 15 tokens) plus random longer strings: compile-or-reject must agree with the reference grammar, the reported position must lie in the offending lexeme / at the first token the LL(1) reading fails on, no hook or Action may run before the panic (also for a subcommand's spec), and the hooked token stream must tile the non-blank bytes of the spec exactly.",
+         "Trusted: reference grammar of DESIGN.md 3.1 (own lexer and LL(1) parser); '--' glued to a non-name character is unclaimed.", "5/C08"),
+ "C09": ("metamorphic runtime monitor (-- inserted into the trailing positional block of the same real application) + reference-judged spec-level -- workloads",
+         "Exploration: (T) inserting -- at any point of the trailing block of non-dash positionals, including the very end, must not change acceptance or any bound value; (S,V) specs containing -- and hostile dash-prefixed tails are judged by the reference for acceptance and verbatim binding (first -- bound to nothing, later ones verbatim), and 'head tail' must equal 'head -- tail' wherever the reference admits one and the same single binding.",
+         "Trusted: the reader of DESIGN.md 3.2 (to find the trailing block) and, for S/V, the reference matcher; zone-4 cases skipped and counted.", "5/C09"),
+ "C10": ("metamorphic runtime monitor: original vs re-spelled command line on the same real application",
+         "Exploration: every option occurrence of generated command lines (accepted or not) is re-rendered with a random admissible documented spelling (short/long, =, attached, separate, folded in any grouping, any alias) and the outcome must be identical; the evidence lists how often each spelling form was produced.",
+         "Trusted: the reader of DESIGN.md 3.2 (decides what an occurrence is). Specs with a spec-level -- excluded (occurrences can be re-read as positionals).", "5/C10"),
+ "C11": ("metamorphic runtime monitor: original vs the same line with two adjacent occurrences of different options swapped",
+         "Exploration: an adjacent pair of occurrences of different options (1-token, 2-token, folded forms) is swapped and the outcome must be identical; half pure swaps with identical spellings, half with re-drawn spellings and folding.",
+         "Trusted: the reader of DESIGN.md 3.2. Specs with a spec-level -- excluded.", "5/C11"),
+ "C12": ("metamorphic runtime monitor: the same real application with and without environment-backed options; targeted families for required and repeated options",
+         "Exploration: accepted without environment => accepted with any subset of options backed by set valid variables, same values for options written on the command line (specs without --); a required option absent from the line is satisfied by its variable (with a negative control); an env-backed option written 1-4 times under [OPTIONS], a folded group, -e..., [-e]... is accepted with all values bound.",
+         "Trusted: the worker sets/unsets the variables around the declarations, one case at a time.", "5/C12"),
+ "C16": ("metamorphic runtime monitor: twin real applications (no spec vs explicit [OPTIONS] ARG...) + usage line read back from the help",
+         "Exploration: random declaration sets, twin apps run on derived and mutated command lines must have identical outcomes, the reference verdict for the implicit spec must agree, and both usage lines must read 'Usage: app <spec>'.",
+         "Trusted: outcome comparison through recording types; usage line = first 'Usage:' line of --help output.", "5/C16"),
 }
 
 PENDING = {}
